@@ -59,6 +59,10 @@ impl Property for C02 {
                         continue;
                     }
                 };
+                if exp.ambiguous.is_some() {
+                    ctx.count("world/ambiguous-denotation");
+                    continue;
+                }
                 let oor = out_of_range(&exp);
                 ctx.eval();
                 let r = back_assigned(&tir, &w, &PP::default());
